@@ -19,6 +19,7 @@ from fractions import Fraction
 
 import lib
 from lib import clist
+import c12x
 
 REQ = ("From Coq Require Import NArith ZArith QArith List Bool.\nImport ListNotations.\n"
        "From PV Require Import Deps.PyImport Deps.Imports Deps.Metrics Deps.ImportsWf Deps.ImportsRun.\nOpen Scope N_scope.")
@@ -42,6 +43,8 @@ class Names:
         self.code = {}
         self.rev = {}
         self.next = 1
+        self.code["*"] = 900000          # Deps/ImportsOpt.v: star
+        self.rev[900000] = "*"
         for i, s in enumerate(stdlib):
             self.code[s] = 1000 + i
             self.rev[1000 + i] = s
@@ -73,9 +76,61 @@ def read_stdlib():
 #   stmt: dict(kind='abs'|'from'|'rel', path=tuple, names=[(orig, bound)], level=int, tc=bool, pos=str, alias=None|str,
 #              tc_else=bool, tc_spelling=str)
 # ----------------------------------------------------------------------------------------------
-def st(kind, path=(), names=(), level=0, tc=False, pos="PModule", alias=None, tc_else=False, join_next=False):
+def st(kind, path=(), names=(), level=0, tc=False, pos="PModule", alias=None, tc_else=False, join_next=False, guard=None,
+       guard_pos="if"):
+    """guard: a condition that mentions TYPE_CHECKING (nested tuples, see guard_text); the statement stands in the body of
+    `if <guard>:` (guard_pos 'if'), of `elif <guard>:` after a false `if`, or in the else branch of `if <guard>:`."""
     return dict(kind=kind, path=tuple(path), names=[(n if isinstance(n, tuple) else (n, n)) for n in names], level=level,
-                tc=tc, pos=pos, alias=alias, tc_else=tc_else, join_next=join_next)
+                tc=tc, pos=pos, alias=alias, tc_else=tc_else, join_next=join_next, guard=guard, guard_pos=guard_pos)
+
+
+# ---- conditions that mention TYPE_CHECKING (Deps/TcGuard.v gexpr) --------------------------------
+def guard_text(g, top=True, oracle=False):
+    k = g[0]
+    if k == "tc":
+        return "TYPE_CHECKING"
+    if k == "tca":
+        return "TYPE_CHECKING" if oracle else "typing.TYPE_CHECKING"
+    if k == "flag":
+        return "FLAG" if g[1] else "NOFLAG"
+    if k == "not":
+        t = "not " + guard_text(g[1], False, oracle)
+    else:
+        op = {"and": "and", "or": "or", "eq": "==", "is": "is", "ne": "!=", "isnot": "is not"}[k]
+        t = "%s %s %s" % (guard_text(g[1], False, oracle), op, guard_text(g[2], False, oracle))
+    return t if top else "(" + t + ")"
+
+
+def guard_coq(g):
+    k = g[0]
+    if k == "tc":
+        return "GTc"
+    if k == "tca":
+        return "GTcAttr"
+    if k == "flag":
+        return "(GFlag %s)" % ("true" if g[1] else "false")
+    if k == "not":
+        return "(GNot %s)" % guard_coq(g[1])
+    c = {"and": "GAnd", "or": "GOr", "eq": "GEq", "is": "GEq", "ne": "GNe", "isnot": "GNe"}[k]
+    return "(%s %s %s)" % (c, guard_coq(g[1]), guard_coq(g[2]))
+
+
+def guard_python(g):
+    """python3's value of the condition at run time"""
+    import types
+    return bool(eval(guard_text(g), {"TYPE_CHECKING": False, "FLAG": True, "NOFLAG": False,
+                                     "typing": types.SimpleNamespace(TYPE_CHECKING=False)}))
+
+
+def tc_terms(s):
+    """(the analyser's, Python's) answer to 'type-checking only?' as Coq terms"""
+    if s.get("guard") is None:
+        t = "true" if s["tc"] else "false"
+        return t, t
+    g = guard_coq(s["guard"])
+    if s["guard_pos"] == "else":
+        return "false", "(eval_guard %s)" % g
+    return "(model_tc %s)" % g, "(spec_tc %s)" % g
 
 
 def stmt_text(s, nxt=None):
@@ -130,6 +185,10 @@ def render_module(m, oracle=False):
     lines = ["import typing", "FLAG = True", "NOFLAG = False", "TYPE_CHECKING = False", ""]
     if oracle:
         lines[0] = "typing = None"
+    elif m.get("broken"):
+        # a file that does not parse: the analysis skips it (module_analyzer.go analyzeModuleDependencies returns the
+        # parser's error and AnalyzeFiles goes on with the next file)
+        return "import typing\ndef broken(:\n    pass\n" + "".join("import %s\n" % ".".join(t) for t in m["broken"])
     for a in ATTRS:
         lines += ["def %s():" % a, "    return 1", ""]
     for i in range(m.get("abstract", 0)):
@@ -154,7 +213,16 @@ def render_module(m, oracle=False):
         body = [stmt_text(s, nxt)]
         if oracle:
             body = ["try:", "    " + body[0], "except Exception:", "    pass"]
-        if s["tc_else"]:
+        if s.get("guard") is not None:
+            cond = guard_text(s["guard"], oracle=oracle)
+            inner = ["    " + l for l in block(s["pos"], body, k)]
+            if s["guard_pos"] == "if":
+                out = ["if %s:" % cond] + inner
+            elif s["guard_pos"] == "elif":
+                out = ["if NOFLAG:", "    pass", "elif %s:" % cond] + inner
+            else:
+                out = ["if %s:" % cond, "    pass", "else:"] + inner
+        elif s["tc_else"]:
             out = ["if TYPE_CHECKING:", "    pass", "else:"] + ["    " + l for l in block(s["pos"], body, k)]
         elif s["tc"]:
             guard = "if typing.TYPE_CHECKING:" if (k % 3 == 0 and not oracle) else "if TYPE_CHECKING:"
@@ -178,10 +246,14 @@ def file_of(m):
     return os.path.join(*m["path"], "__init__.py") if m["pkg"] else os.path.join(*m["path"][:-1], m["path"][-1] + ".py")
 
 
-def write_project(mods, d, oracle=False):
+def write_project(mods, d, oracle=False, marker="requirements.txt", marker_dir=None):
     os.makedirs(d, exist_ok=True)
-    with open(os.path.join(d, "requirements.txt"), "w") as f:     # project-root marker for findProjectRoot
-        f.write("")
+    md = marker_dir or d
+    if marker == ".git":                                          # project-root markers of findProjectRoot
+        os.makedirs(os.path.join(md, ".git"), exist_ok=True)
+    else:
+        with open(os.path.join(md, marker), "w") as f:
+            f.write("")
     for m in mods:
         p = os.path.join(d, file_of(m))
         os.makedirs(os.path.dirname(p), exist_ok=True)
@@ -192,7 +264,7 @@ def write_project(mods, d, oracle=False):
 # ----------------------------------------------------------------------------------------------
 # Coq terms
 # ----------------------------------------------------------------------------------------------
-def coq_stmt(nm, s):
+def coq_stmt(nm, s, side=None):
     names = clist(["mk_in %d %d" % (nm.c(o), nm.c(b)) for o, b in s["names"]])
     if s["kind"] == "abs":
         f = "ImportAbs %s" % nm.path(s["path"])
@@ -200,15 +272,21 @@ def coq_stmt(nm, s):
         f = "ImportFrom %s %s" % (nm.path(s["path"]), names)
     else:
         f = "ImportRel %d%%nat %s %s" % (s["level"], nm.path(s["path"]), names)
-    return "mk_stmt (%s) %s %s" % (f, "true" if s["tc"] else "false", s["pos"])
+    tc = "true" if s["tc"] else "false"
+    if side is not None:
+        tc = tc_terms(s)[0 if side == "model" else 1]
+    return "mk_stmt (%s) %s %s" % (f, tc, s["pos"])
 
 
-def coq_project(nm, mods):
+def coq_project(nm, mods, side=None):
+    """side None: the plain project; 'model' / 'spec': guarded statements carry the analyser's / Python's reading,
+    a module that does not parse has no statements"""
     items = []
     for m in mods:
         al = "None" if m["all"] is None else "(Some %s)" % ("[" + "; ".join(str(nm.c(x)) for x in m["all"]) + "]")
+        stmts = [] if m.get("broken") else model_stmts(m)
         items.append("mk_mod %s %s %s %s" % (nm.path(m["path"]), "true" if m["pkg"] else "false",
-                                            clist([coq_stmt(nm, s) for s in model_stmts(m)]), al))
+                                            clist([coq_stmt(nm, s, side) for s in stmts]), al))
     return clist(items)
 
 
@@ -563,6 +641,11 @@ for c in cases:
     if c["kind"] == "abs":
         if inproj(c["target"]):
             res.append(c["target"])
+    elif c["bound"] == ["*"]:
+        import importlib.util
+        target = importlib.util.resolve_name(c["spec"], c["package"]) if c["spec"].startswith(".") else c["spec"]
+        if inproj(target):
+            res.append(target)
     else:
         for b in c["bound"]:
             o = ns.get(b)
@@ -665,7 +748,7 @@ def main(tier):
         d = os.path.join(work, "p%04d" % i, "proj")
         write_project(mods, d)
         files = sorted(file_of(m) for m in mods)
-        reqs.append({"op": "imports", "dir": d})
+        reqs.append({"op": "imports_x", "dir": d})
         reqs.append({"op": "imports", "dir": d, "files": list(reversed(files))})
     impl = lib.driver(reqs) if getattr(ck, "go_ok", False) else []
     for r in impl:
@@ -674,6 +757,9 @@ def main(tier):
                 r[k] = []
 
     lib.log("C12: implementation done, %.1fs" % (__import__("time").time() - ck.t0))
+    # ---- second part (harness/c12x.py): its projects, its implementation runs, its Coq jobs ---------
+    xs, xjobs = c12x.prepare_extra(ck, rng, nm, work, thorough) if impl else ([], [])
+    xouts = None
     # ---- Coq: spec, model, classes, metrics -------------------------------------------------
     coq = None
     coq_res = None
@@ -693,7 +779,9 @@ def main(tier):
                                for it, dg in zip(items, dags))
                 jobs.append(("C12_p_%d" % off, REQ, body))
             coq, coq_res = [], []
-            for out in lib.coq_eval_many(jobs, workers=8):
+            outs = lib.coq_eval_many(jobs + xjobs, workers=10)
+            xouts = outs[len(jobs):]
+            for out in outs[:len(jobs)]:
                 vals = lib.parse_coq_values(out)
                 coq += vals[0::2]
                 coq_res += vals[1::2]
@@ -796,6 +884,8 @@ def main(tier):
             bad = "max depth %d but the longest import chain has %d edges" % (r["max_depth"], lp)
         if bad is None and (r["total_modules"] != len(nodes) or r["total_dependencies"] != len(ie)):
             bad = "totals (%d modules, %d dependencies) differ from the graph (%d, %d)" % (r["total_modules"], r["total_dependencies"], len(nodes), len(ie))
+        if bad is None:
+            bad = c12x.check_outputs(r, nodes, ie)
         if bad:
             ck.violation("module metrics: " + bad, replay)
             continue
@@ -850,6 +940,12 @@ def main(tier):
         if lp is not None and longest != lp:
             ck.broken_ties.append("Coq longest_chain %s, python longest path %s (project %d)" % (longest, lp, i))
 
+    # ---- second part: options, TYPE_CHECKING conditions, layouts (harness/c12x.py) ---------------------
+    xstats = {}
+    if impl and coq is not None and xouts:
+        xstats = c12x.decide_extra(ck, nm, work, xs, xouts)
+        lib.log("C12: option-dependent part done, %.1fs" % (__import__("time").time() - ck.t0))
+
     # ---- the command-line path: the JSON report carries the same graph and metrics -----------------
     n_cli = 0
     if impl:
@@ -875,10 +971,31 @@ def main(tier):
                              {"project": {file_of(m): render_module(m) for m in projects[i][2]}, "cli_edges": ce_, "hook_edges": r["edges"],
                               "cli_max_depth": da.get("MaxDepth"), "hook_max_depth": r["max_depth"]})
 
+        # the analysis options reach the module analyzer from the [dependencies] section of .pyscn.toml
+        picked = []
+        for want in (lambda o: not o["rel"], lambda o: not o["third"] and o["rel"], lambda o: o["stdlib"] and o["third"] and o["rel"]):
+            c = [x for x in xs if x["opts"] and not x["opts"]["excl"] and x["marker"] != "setup.py" and not x["prefix"] and want(x["opts"])
+                 and "error" not in x.get("impl", {"error": 1})]
+            picked += c[:1] if not thorough else c[:3]
+        for x in picked:
+            o = x["opts"]
+            with open(os.path.join(x["root"], ".pyscn.toml"), "w") as f:
+                f.write("[dependencies]\ninclude_stdlib = %s\ninclude_third_party = %s\nfollow_relative = %s\n"
+                        % tuple("true" if o[k] else "false" for k in ("stdlib", "third", "rel")))
+            rc, data, err = lib.analyze_json(x["root"], ["--select", "deps"])
+            n_cli += 1
+            da = ((data or {}).get("system") or {}).get("DependencyAnalysis") if data else None
+            ce_ = sorted([a, b] for a, row in ((da or {}).get("DependencyMatrix") or {}).items() for b, v in (row or {}).items() if v)
+            if not da or ce_ != sorted(list(e) for e in x["impl"]["edges"]):
+                ck.violation("`pyscn analyze --select deps` with [dependencies] %s in .pyscn.toml reports a different graph than "
+                             "service.AnalyzeDependencies with these options" % o,
+                             {"project": {file_of(m): render_module(m) for m in x["mods"]}, "options": o, "cli_edges": ce_,
+                              "hook_edges": x["impl"]["edges"], "stderr": err[-300:]})
+
     ck.samples = [{"family": projects[k][0], "files": {file_of(m): render_module(m)[-300:] for m in projects[k][2][:3]},
                    "impl_edges": impl[2 * k].get("edges") if impl else None} for k in (0, 5, len(projects) // 2)]
     ck.cov.update({
-        "evaluations": len(projects) * 2 + n_oracle_stmts + n_cli,
+        "evaluations": len(projects) * 2 + n_oracle_stmts + n_cli + xstats.get("n_eval", 0) + xstats.get("oracle_stmts", 0) + xstats.get("guards", 0),
         "distinct_nontrivial": len(distinct),
         "rule": "projects: positions x {runtime, TYPE_CHECKING, else of TYPE_CHECKING}; catalogue of import forms x importer location on a "
                 "layout with same-named modules in different packages; random layouts (2-3 packages, nested subpackages, re-exports, __all__) in "
@@ -886,8 +1003,15 @@ def main(tier):
                 "distinct = distinct implementation edge sets",
         "input_distribution": dict(fam_count, deviation_classes_present=class_count, cpython_projects=n_oracle,
                                    cpython_statements=n_oracle_stmts, cli_reports_compared=n_cli, metric_checks=n_metric_checks),
-        "disagreements_checked": n_diff_spec + n_model_mismatch + oracle_bad + n_order,
-        "spec_vs_cpython_mismatches": oracle_bad,
+        "disagreements_checked": n_diff_spec + n_model_mismatch + oracle_bad + n_order + xstats.get("diff_spec", 0),
+        "spec_vs_cpython_mismatches": oracle_bad + xstats.get("oracle_bad", 0),
+        "second_part": dict(xstats, rule="analysis options (include_stdlib / include_third_party / follow_relative / exclude pattern) against "
+                            "Deps/ImportsOpt.v; conditions mentioning TYPE_CHECKING in and/or/==/is/not at if / elif / else against Deps/TcGuard.v and "
+                            "python3; namespace packages (also through AnalyzeProject with the options of `pyscn check`); import root below the "
+                            "project root with each of the five marker files; wildcard re-exports; modules named like stdlib modules; m.py next "
+                            "to m/; files that do not parse; projects without refactoring candidates; on every project of both parts the "
+                            "derived outputs (root/leaf modules, direct/transitive dependencies, dependents, risk level, coupling averages, "
+                            "main-sequence deviation, refactoring candidates) decided on the reported graph"),
     })
     ck.trusted += ["Coq 8.16.1 kernel, vm_compute for model/spec evaluation",
                    "translator /verif/translator gen_imports.go (stdlib table, analysis option defaults)",
@@ -896,7 +1020,11 @@ def main(tier):
                    "hand-written models Deps/Imports.v (module_analyzer.go, reexport_resolver.go, dependency_graph.go) and Deps/Metrics.v "
                    "(coupling_metrics.go, system_analysis_service.go)",
                    "float64: instability compared exactly with the correctly rounded quotient, distance within 1e-12",
-                   "tree-sitter parse of the generated statement shapes (not modelled)"]
-    ck.finish(assumptions=["the project root carries a marker file (requirements.txt), so findProjectRoot returns it",
-                           "every package directory has an __init__.py; module files are not named test_*.py",
-                           "imported names exist (every module defines fa, fb, fc); wildcard imports are not generated"])
+                   "tree-sitter parse of the generated statement shapes (not modelled)",
+                   "hand-written option-parametrised model Deps/ImportsOpt.v (equal to Deps/Imports.v for the default options: "
+                   "AnalyzeFiles_o_default) and Deps/TcGuard.v; hook cmd/pyscn-verif/op_imports_opts.go",
+                   "exclude patterns: only plain dotted names are modelled (doublestar.Match without wildcard characters is equality)"]
+    ck.finish(assumptions=["one of the marker files of findProjectRoot lies in the directory the analysed files are given relative to "
+                           "(first part: requirements.txt in the import root; second part: each marker, also one or two directories above it)",
+                           "module files are not named test_*.py; first part: every package directory has an __init__.py",
+                           "imported names exist (every module defines fa, fb, fc); a wildcard import takes names from a plain module"])
